@@ -149,7 +149,7 @@ LABELS = ["", "", "", "", "1", "2", "_a", "x", "_gh", "A1b", "12", "_"]
 NAMES = [None, None, None, "water dimer", "mol-1", "Zn(II) complex", "a", "x y  z", "CH4", "trailing ", "1,2-diol; test"]
 PINNED_A = [1.8897261328856432, 1.889726125, 1.88972612456506, 1.8897]
 AFMTS = [None, None, None, "{elem}", "{elem}{elbl}", "{elez}", "{elem}{elea}", "{elem}@{mass}", "{elea}{elem}_{elbl}", "{{{elem}}}", "{elem} {elez}", "x{elbl}-{elem}"]
-GFMTS = [None, None, None, "", "", "@{elem}", "Gh({elem})", "{elem}:", "gh_{elem}{elbl}", "X", "@{elem}{elea}", "{elez}-{mass}"]
+GFMTS = [None, None, None, "", "", "@{elem}", "Gh({elem})", "{elem}:", "gh_{elem}{elbl}", "X", "@{elem}{elea}", "{elez}-{mass}", "{elbl}", "{elbl}", "g{elbl}"]
 BAD_FMTS = ["{elen}", "{elem", "elem}", "{elem}}", "{}", "{elem:>4}", "{elem!r}", "{0}"]
 
 
@@ -582,8 +582,10 @@ def read_back(d, text, kw):
     L = L[:-1]
     r = {"atoms": [], "charge": None, "mult": None, "frags": None, "unit": None, "dummy": None, "unit_word": None}
 
-    def atom(line, coords_first=False):
+    def atom(line, coords_first=False, empty_label_ok=False):
         t = line.split()
+        if len(t) == 3 and empty_label_ok:
+            return ([], t)  # an override template that renders empty for this atom (e.g. '{elbl}' on an unlabelled one): the line is still the atom's
         if len(t) < 4:
             raise Unreadable(f"atom line has {len(t)} tokens: {line!r}")
         return (t[3:], t[:3]) if coords_first else (t[:-3], t[-3:])
@@ -602,7 +604,7 @@ def read_back(d, text, kw):
         body = L[2:]
         if len(body) != nat:
             raise Unreadable(f"count line says {nat} atoms, {len(body)} lines follow")
-        r["atoms"] = [atom(x) for x in body]
+        r["atoms"] = [atom(x, empty_label_ok=(d != "terachem")) for x in body]
     elif d == "orca":
         unit_from(L[0], {"! Bohrs": "bohr", "!": "angstrom"})
         m = re.fullmatch(r"\*xyz (-?\d+) (-?\d+)", L[2])
